@@ -54,6 +54,26 @@ class LoopGen:
             b = self.fresh("buf")
             self.emit(ind, f"{b} = memref.alloc({sz}) {{alignment = 64 : i64}} : memref<?xi8>")
             self.emit(ind, f'"test.op"({b}) {{tag = {self.tag} : i32}} : (memref<?xi8>) -> ()')
+        elif r < 0.47:
+            # a subview whose size is another dimension query made inside the loop (kept there by an ordinary user); the dim of the
+            # subview feeds an alloc
+            j, i2 = self.rng.choice(["%c0", "%c1"]), self.rng.choice(["%c0", "%c1"])
+            dj = self.fresh("d")
+            self.emit(ind, f"{dj} = memref.dim %A, {j} : memref<?x?xi8>")
+            self.emit(ind, f'"test.op"({dj}) {{tag = {self.tag} : i32}} : (index) -> ()')
+            sizes = [dj, "4"] if i2 == "%c0" else ["4", dj]
+            if self.rng.random() < 0.3:
+                sizes = [dj, dj]
+            shape = "x".join("?" if z.startswith("%") else z for z in sizes)
+            svt = f"memref<{shape}xi8, strided<[?, 1], offset: ?>>"
+            sv = self.fresh("sv")
+            self.emit(ind, f"{sv} = memref.subview %A[0, 0] [{sizes[0]}, {sizes[1]}] [1, 1] : memref<?x?xi8> to {svt}")
+            d = self.fresh("d")
+            self.emit(ind, f"{d} = memref.dim {sv}, {i2} : {svt}")
+            b = self.fresh("buf")
+            self.tag += 1
+            self.emit(ind, f"{b} = memref.alloc({d}) {{alignment = 64 : i64}} : memref<?xi8>")
+            self.emit(ind, f'"test.op"({b}) {{tag = {self.tag} : i32}} : (memref<?xi8>) -> ()')
         elif r < 0.7:
             # dim of a subview (static/dynamic offsets and sizes in any combination) feeding an alloc
             offs = [self.rng.choice(ivs + ["%c0"]) if self.rng.random() < 0.5 else "0" for _ in range(2)]
